@@ -2,4 +2,5 @@
 pub mod num;
 pub mod book;
 pub mod expr;
+pub mod price;
 pub mod q;
